@@ -174,6 +174,45 @@ def check_import(rep, spec, order):
         rep.fail('C17:import.matrix', 'the imported diagram %r does not denote the matrix of the graph' % (d,), r)
 
 
+def check_boundary_edges(rep):
+    """graphs in which an edge joins two boundary vertices directly (input-output: a bare wire; input-input / output-output:
+    a cup / cap): the import must denote the graph's matrix"""
+    VT, ET = pyzx.VertexType, pyzx.EdgeType
+    for kind, et in itertools.product(('in-out', 'in-in', 'out-out'), (ET.SIMPLE, ET.HADAMARD)):
+        g = adapters.OldGraph()
+        a, b = g.add_vertex(VT.BOUNDARY), g.add_vertex(VT.BOUNDARY)
+        s, i0, o0 = g.add_vertex(VT.Z, phase=0.25), g.add_vertex(VT.BOUNDARY), g.add_vertex(VT.BOUNDARY)
+        g.add_edge((a, b), et)
+        g.add_edge((i0, s), ET.SIMPLE)
+        g.add_edge((s, o0), ET.SIMPLE)
+        if kind == 'in-out':
+            g.inputs, g.outputs = [a, i0], [b, o0]
+        elif kind == 'in-in':
+            g.inputs, g.outputs = [a, b, i0], [o0]
+        else:
+            g.inputs, g.outputs = [i0], [a, b, o0]
+        r = 'graph with a %s edge (%s) between two boundaries beside a Z spider' % (kind, et)
+        rep.case(r)
+        real = g.finish()
+        want = adapters.matrix_of_graph(real)
+        got = common.outcome(zx.Diagram.from_pyzx, adapters.OldGraph(real))
+        same_kind = kind != 'in-out'
+        key = 'C17:import.boundary_edge.same_kind' if same_kind else 'C17:import.boundary_edge'
+        if got[0] != 'ok':
+            rep.fail(key, 'from_pyzx raised %r' % (got[1],), r)
+            continue
+        d = got[1]
+        if (len(d.dom), len(d.cod)) != (len(real.inputs()), len(real.outputs())):
+            rep.fail(key, 'imported diagram has type %d -> %d, the graph %d -> %d'
+                     % (len(d.dom), len(d.cod), len(real.inputs()), len(real.outputs())), r)
+            continue
+        m = zxsim.matrix(d)
+        k = numpy.argmax(abs(want.flatten()))
+        ratio = m.flatten()[k] / want.flatten()[k]
+        if not (abs(ratio) > 1e-9 and numpy.allclose(m, ratio * want, atol=1e-9)):
+            rep.fail(key, 'the imported diagram %r does not denote the matrix of the graph' % (d,), r)
+
+
 def check_refusals(rep):
     VT = pyzx.VertexType
     g = adapters.OldGraph()
@@ -219,4 +258,5 @@ def run(tier, seed=0, shard=(0, 1)):
             check_import(rep, spec, order)
     if shard[0] == 0:
         check_refusals(rep)
+        check_boundary_edges(rep)
     return rep.result()
